@@ -119,9 +119,6 @@ def process_event_by_type(repo):
     import copy as _c
     pe = repo.fn("Simulator._process_event")
     lits = event_type_literals(repo)
-    br = dispatch_branches(flow_of(pe), pe.params[1])
-    if set(br) == set(lits.values()):
-        return pe, False
     from ..pe import case_split
     subj = ast.Attribute(value=ast.Name(id=pe.params[1], ctx=ast.Load()), attr="event_type", ctx=ast.Load())
     node = case_split(repo, pe, subj, sorted(set(lits.values())))
